@@ -35,8 +35,8 @@ RULE = ("streams of calls (motif name, graph, root, substitution for phi and for
         "network = 1-3 motifs of the stream (13 shapes: edge .. 6-cycle, and every connected graph on <= 4 vertices) + "
         "FOREIGN motifs joining two non-adjacent vertices of a motif (its chords covered as separate 2-cliques / triangles / "
         "4-cycles over new vertices), pendant edges, motifs glued at one vertex; cover labels '<key>-[vertices]-[edges]-<uid>' "
-        "with the integer key assigned per topology in six ways (clique size, edge count, index from 1 / from 0, a code, "
-        "arbitrary numbers), vertex / edge literals spelled as list, tuple, without spaces, edges as lists, uids overlapping "
+        "with the integer key assigned per topology in seven ways (clique size, edge count, index from 1 / from 0, a code, "
+        "arbitrary numbers, the VERTEX COUNT n naming a non-complete topology on n vertices), vertex / edge literals spelled as list, tuple, without spaces, edges as lists, uids overlapping "
         "or disjoint from the vertex labels; every (motif, focal) incl. the foreign motifs, heterogeneous messages, repeated "
         "later; 40% with a decoy MessagePassing object (same labels, every motif a path); judged by the same checker against "
         "the motif WRITTEN IN THE LABEL. Non-trivial = the call's motif contains a cycle and the polynomial has >= 6 monomials; distinct "
@@ -338,7 +338,7 @@ def _root_classes(nodes, edges):
 # stream's motifs + FOREIGN motifs: chords of a motif covered as separate 2-cliques / triangles / 4-cycles over a new
 # vertex, pendant edges, motifs glued at a vertex) + calls (motif, focal, substitution) on ONE MessagePassing object,
 # judged by the same checker against the motif of the label.
-KEYMODES = ["size", "edges", "index", "index0", "code", "big"]
+KEYMODES = ["size", "edges", "index", "index0", "code", "big", "verts"]
 FMTS = ["list", "tight", "tuple", "mixed"]
 MP_SHAPES = [
     ([0, 1], [[0, 1]]),
@@ -453,6 +453,12 @@ def _mp_net(rng, shapes, keymode=None, fmt=None, foreign=0.6, glue=0.3, labels=N
             m["key"] = i
         elif keymode == "code":
             m["key"] = 10000 * (i + 1) + 100 * n + e
+        elif keymode == "verts":
+            # the VERTEX COUNT n names one topology on n vertices, a non-complete one if the cover has any (a chordless
+            # 4-cycle keyed 4): a key equal to the motif's size says nothing about its edges
+            same = [x for x in codes if x[0] == n]
+            pref = ([x for x in same if x[1] != x[0] * (x[0] - 1) // 2] or same)[0]
+            m["key"] = n if c == pref else 100 * n + i + 1
         else:
             m["key"] = 1000 + 37 * i
     # unique ids: overlapping the vertex labels (0, 1, 2 ...), or disjoint from them, or arbitrary
